@@ -134,6 +134,9 @@ func runC05(c *Ctx) {
 	ds := pkgFilter(c.reachDecls(R, cdxUnser, spdxUnser), "unserializers.(*CDX).Unserialize", "unserializers.(*SPDX23).Unserialize", "unserializers.(*CDX).componentToNodeList",
 		"sbom.(*NodeList).", "sbom.(*Edge).AddDestinationById")
 	c.loopTotality(R, ds, loopPolicies, commonSkips)
+	// "parsing the same bytes twice yields equivalent graphs with identical identifiers": nothing a
+	// parser leaves behind may depend on Go's randomised map iteration order
+	mapOrderRule(c, c.reachDecls("map-order-independence", cdxUnser, spdxUnser))
 }
 
 // counterRule: C05-D1 (seed) and D2.
